@@ -72,7 +72,7 @@ CLAIMED = {
              "and counts (Free.history_lockstep); two specification subtleties were machine-found there (the view equals what ScratchDB "
              "reads only for caches with unique keys - view_is_what_is_read, cache_keys_unique_* - and the counts slot). "
              "WHOLE HISTORIES WITH squash_changes BLOCKS (Props/HistoryBlocks.lean): after any history of direct calls and blocks - each left normally or by an exception - pruning on or off, the trie is the tree of the FLATTENED history (committed blocks contribute their calls, aborted ones nothing), the database is complete for it and - pruning - holds exactly the live nodes with true counts (Free.history_blocks_world, history_blocks_pruning_exact), get of the tree-free world returns the flattened history's map model value and never raises (history_blocks_get), its root is the Yellow Paper root of those contents and depends on nothing else (history_blocks_root, history_blocks_root_depends_only_on_contents); applied to a concrete history with a committed and an aborted block (NonVacuity9). "
-             "Tie: exact db, root and counts after every step, every exit kind and position, for the tree-carrying AND the tree-free world. Also stated directly on the tree-free transcription FWorld with NO run-level hypothesis (Free.batch_op_leaves_outer, Free.abort_restores: a block left by an exception restores the world exactly whatever was done inside; Free.commit_failure_keeps_outer; Free.commit_adopts_root).",
+             "Tie: exact db, root and counts after every step, every exit kind and position, for the tree-carrying AND the tree-free world. Also stated directly on the tree-free transcription FWorld with NO run-level hypothesis (Free.batch_op_leaves_outer, Free.abort_restores: a block left by an exception restores the world exactly whatever was done inside; Free.commit_failure_keeps_outer; Free.commit_adopts_root). HISTORIES WITH FAILING COMMITS on a non-pruning trie (Props/HistoryFailCommit.lean): a block whose body runs normally and whose commit is cut short at its (n+1)-th database write leaves tries and counts exactly as before, loses no binding and re-establishes the between-steps invariant (Free.fail_block_step); along whole histories of direct calls, committed / aborted blocks and blocks with failed commits the tree-free world agrees call by call with the tree-carrying one (history_fail_commit_lockstep), the trie is the tree of the calls that count - a block with a failed commit contributes nothing -, the database is complete for it and get returns the map model's value (history_fail_commit_world, history_fail_commit_get): 'remains fully usable and correct afterwards'; concrete history in NonVacuity11 (the failed commit leaves one orphan entry, the root does not move).",
         technique="Lean 4 proof (invariants of the world executor) + correspondence check with fault injection",
         design_ref="6/C05"),
     "C06": dict(
@@ -286,7 +286,7 @@ CLAIMED = {
              "functions return (raw_exists, raw_get_branch, raw_trie_nodes, raw_witness, raw_blank; the first fuel bound for the "
              "witness generator was machine-refuted: with an exhausted key it keeps descending to the right, depth = trie height). "
              "Tie: tuples returned, validity outcomes incl. exception classes on a corruption stream, against the tree-level model "
-             "AND the raw-level transcription, the latter also on databases with one node removed and on older roots.",
+             "AND the raw-level transcription, the latter also on databases with one node removed and on older roots. OVER WHOLE HISTORIES (Props/C13History.lean): composed with the raw-level history theorem of C12, the four helpers of branches.py run on the root hash and database the BinaryTrie API itself produced answer in terms of the map model spec(ops): check_if_branch_exist true iff a stored key starts with p (history_exists), get_branch = encodings of the tree-level branch and if_branch_valid confirms spec(ops)(k) with it, refusal implies unstored and related (history_branch), no offered list validates another answer (history_branch_sound), get_trie_nodes / witness exact and sufficient (history_nodes_and_witness).",
         technique="Lean 4 proof (Layer-D reader vs tree induction, path-node inclusion lemmas) + correspondence check incl. forged branches",
         design_ref="6/C13"),
     "C09": dict(
